@@ -218,6 +218,10 @@ class MDReplayer:
             if dirty:
                 u = self.build(h)
                 dirty = False
+                try:   # serialization is an observation that may happen between any two steps: nothing it
+                    ir.to_proto(u.model)   # leaves behind (memoized protos, ...) may show in a later one
+                except Exception:  # noqa: BLE001
+                    pass
             c = call_from_compact(row["c"])
             exp = row["out"]
             got = u.apply(c)
@@ -235,6 +239,18 @@ class MDReplayer:
                 continue
             exp_obs = obs_of_ms(row["post"]) if exp == "ok" else None
             if exp_obs is not None and real == exp_obs:
+                if dirty and u.names_unique():
+                    # the same objects were serialized before this call: the references must follow the edit
+                    self.stats["post_serializations"] += 1
+                    try:
+                        gotser = u.ser_of_proto(ir.to_proto(u.model))
+                    except Exception:  # noqa: BLE001 - judged (as a divergence) when the post state is visited
+                        gotser = None
+                    if gotser is not None and gotser != norm_ser(row["ser"]):
+                        self.finding("C19", f"C19:{c['op']}:ok:serialized-references-after-edit", rec, row, got=gotser,
+                                     want=norm_ser(row["ser"]),
+                                     message=f"serializing again after {c['op']} (the model had been serialized before the "
+                                             "call) does not use the current names / annotations")
                 continue
             # divergence: judge the property directly on the real state
             bad = self.dangling(u)
